@@ -95,6 +95,7 @@ func ruleNoTxUnderUpdate(c *report.Ctx, floorClosures int) {
 
 func runC01(c *report.Ctx) {
 	p := c.P
+	ruleBalanceRowIsTheCoinsWallet(c)
 	ruleNoTxUnderUpdate(c, 8)
 	ruleReorgReachesNewTip(c)
 	ruleRollbackBeforeCursorMoves(c)
